@@ -34,7 +34,7 @@ ASSUMPTIONS = [
     "failpoints are placed only in callee frames below as_dict/as_obj: no real exception can arise between the plain assignments at the top of these two functions",
     "the slots are read through their name-mangled class attributes",
 ]
-MUST_SEE = ["equal_but_distinct_source_objects", "faults_outside_the_exception_tree", "indented_json_with_options", "option_spelled_false", "raised_with_options", "failpoints_fired", "failpoint_nested", "default_after_fault", "bomb_positions", "corrupt_payloads", "option_subsets", "mappings_walked", "explorer_children_checked", "index_sources_checked", "deser_with_options", "repo_tests_slot_checks", "shared_options_object"]
+MUST_SEE = ["flag_only_dialect", "equal_but_distinct_source_objects", "faults_outside_the_exception_tree", "indented_json_with_options", "option_spelled_false", "raised_with_options", "failpoints_fired", "failpoint_nested", "default_after_fault", "bomb_positions", "corrupt_payloads", "option_subsets", "mappings_walked", "explorer_children_checked", "index_sources_checked", "deser_with_options", "repo_tests_slot_checks", "shared_options_object"]
 CONFIG = {
     "quick": {"shards": 16, "trees": 16, "subsets": 14, "failpoint_trees": 1, "watchdog_s": 600},
     "thorough": {"shards": 32, "trees": 40, "subsets": 48, "failpoint_trees": 4, "watchdog_s": 3400},
@@ -145,6 +145,8 @@ def run_shard(ctx):
                 if skip and TYPE_KEY in out:
                     bad("sortkeys-or-skip-with-dialect", "test-dialect stub source carries a type tag although tags are suppressed", path=path, call=call, keys=keys)
                 rest = [k for k in keys if k != TYPE_KEY]
+                if {k: out[k] for k in rest} != {"source_type": "", "source_uri": ""}:
+                    bad("test-dialect-stub", "the test dialect did not put the (empty) stub source into a node's origin", path=path, call=call, got=repr(out)[:120])
                 if sort and (rest != sorted(rest) or (TYPE_KEY in out and keys[0] != TYPE_KEY)):
                     bad("sortkeys-or-skip-with-dialect", "test-dialect stub source keys are not sorted", path=path, call=call, keys=keys)
                 return
@@ -283,6 +285,35 @@ def run_shard(ctx):
         if case < 1 and ctx.shard == 0:
             ctx.sample({"tree": spec_json(s)})
         chosen = subsets if ctx.params["subsets"] >= len(subsets) else rng.sample(subsets, ctx.params["subsets"])
+        # ---------------- a mashumaro dialect that only sets a flag (omit_none): it reaches every nested object
+        from mashumaro.dialect import Dialect as _Dialect
+
+        class OmitNone(_Dialect):
+            omit_none = True
+
+        def strip_none(x):
+            if isinstance(x, dict):
+                return {k: strip_none(v) for k, v in x.items() if v is not None}
+            if isinstance(x, list):
+                return [strip_none(v) for v in x]
+            return x
+
+        for opts, _md in rng.sample(subsets, 2):
+            so = dict(opts) if opts else None
+            ctx.evaluations += 1
+            ctx.count("flag_only_dialect")
+            try:
+                plain = root.as_dict(serialization_options=so)
+                with_flag = root.as_dict(mashumaro_dialect=OmitNone, serialization_options=so)
+                again = root.as_dict(serialization_options=so)
+            except Exception as e:  # noqa: BLE001
+                bad("serialize-raised", f"as_dict with a flag-only dialect raised {type(e).__name__}: {e}"[:300], options=odesc(opts, None))
+                continue
+            if with_flag != strip_none(plain) or (plain != strip_none(plain) and with_flag == plain):
+                bad("dialect-not-applied", "a mashumaro dialect that sets omit_none did not take effect on every nested object", options=odesc(opts, None), tree=spec_json(s))
+            if again != plain:
+                bad("dialect-leaked", "a call without dialect after a call with one gives another output", options=odesc(opts, None))
+            after_call({"call": "as_dict", "options": odesc(opts, None) + ["mashumaro_dialect=omit_none"]}, False)
         # ---------------- successful calls with every option subset + shape walk
         for opts, md in chosen:
             ctx.count("option_subsets")
